@@ -63,3 +63,35 @@ impl vstd::std_specs::cmp::PartialEqSpecImpl for Intensity {
     open spec fn obeys_eq_spec() -> bool { true }
     open spec fn eq_spec(&self, other: &Intensity) -> bool { *self == *other }
 }
+
+/// [C08] effect of one SGR operation on the pen, written from the SGR table of the property
+pub open spec fn apply_sgr(p: Pen, op: crate::parser::SgrOp) -> Pen {
+    use crate::parser::SgrOp;
+    match op {
+        SgrOp::Reset => Pen::default_spec(),
+        SgrOp::SetBoldIntensity => Pen { intensity: Intensity::Bold, ..p },
+        SgrOp::SetFaintIntensity => Pen { intensity: Intensity::Faint, ..p },
+        SgrOp::SetItalic => Pen { attrs: p.attrs | ITALIC_MASK, ..p },
+        SgrOp::SetUnderline => Pen { attrs: p.attrs | UNDERLINE_MASK, ..p },
+        SgrOp::SetBlink => Pen { attrs: p.attrs | BLINK_MASK, ..p },
+        SgrOp::SetInverse => Pen { attrs: p.attrs | INVERSE_MASK, ..p },
+        SgrOp::SetStrikethrough => Pen { attrs: p.attrs | STRIKETHROUGH_MASK, ..p },
+        SgrOp::ResetIntensity => Pen { intensity: Intensity::Normal, ..p },
+        SgrOp::ResetItalic => Pen { attrs: p.attrs & !ITALIC_MASK, ..p },
+        SgrOp::ResetUnderline => Pen { attrs: p.attrs & !UNDERLINE_MASK, ..p },
+        SgrOp::ResetBlink => Pen { attrs: p.attrs & !BLINK_MASK, ..p },
+        SgrOp::ResetInverse => Pen { attrs: p.attrs & !INVERSE_MASK, ..p },
+        SgrOp::ResetStrikethrough => Pen { attrs: p.attrs & !STRIKETHROUGH_MASK, ..p },
+        SgrOp::SetForegroundColor(c) => Pen { foreground: Some(c), ..p },
+        SgrOp::ResetForegroundColor => Pen { foreground: None, ..p },
+        SgrOp::SetBackgroundColor(c) => Pen { background: Some(c), ..p },
+        SgrOp::ResetBackgroundColor => Pen { background: None, ..p },
+    }
+}
+
+/// [C08] the pen after the first `k` operations of `ops`, starting from `p` (left fold)
+pub open spec fn sgr_upto(p: Pen, ops: Seq<crate::parser::SgrOp>, k: int) -> Pen
+    decreases k,
+{
+    if k <= 0 { p } else { apply_sgr(sgr_upto(p, ops, k - 1), ops[k - 1]) }
+}
